@@ -70,7 +70,7 @@ func newFootprintFromLoader(ld *ot.Loader, isUserProvided bool, buffer scanBuffe
 
 	raw, _ = ld.RawTableTo(ot.MustNewTag("OS/2"), raw)
 	fp := tables.FPNone
-	if os2, _, err := tables.ParseOs2(raw); err != nil {
+	if os2, _, err := tables.ParseOs2(raw); err == nil {
 		fp = os2.FontPage()
 	}
 
